@@ -92,6 +92,10 @@ pub struct RunResult {
   /// digest of the run's full event log (determinism self-check)
   pub digest: u64,
   pub sut_panic: Option<String>,
+  /// the simulator itself misbehaved (e.g. record and replay of a case disagree): exit 2
+  pub harness_error: Option<String>,
+  /// executions this run performed (1, or 1 + the number of single-fault re-executions)
+  pub evals: u64,
 }
 
 pub struct Ctx<'a> {
@@ -183,8 +187,9 @@ pub fn run_check(spec: &CheckSpec, base_seed: u64, thorough: bool, threads: usiz
     let log2 = if n > 20_000_000 { 30 } else if n > 2_000_000 { 28 } else { 26 };
     let distinct_nt = Distinct::new(log2);
     let distinct_states = Distinct::new(log2);
-    let merged = Mutex::new((Acc::default(), Vec::<(u64, Value)>::new(), Vec::<(u64, u64, Failure)>::new(), BTreeMap::<String, u64>::new(), 0u64, 0u64, Vec::<(u64, String)>::new()));
+    let merged = Mutex::new((Acc::default(), Vec::<(u64, Value)>::new(), Vec::<(u64, u64, Failure)>::new(), BTreeMap::<String, u64>::new(), 0u64, 0u64, Vec::<(u64, String)>::new(), 0u64));
     let had_new = AtomicBool::new(false);
+    let harness_errors: Mutex<Vec<String>> = Mutex::new(vec![]);
     let digest_sum = AtomicU64::new(0);
     std::thread::scope(|s| {
       for _ in 0..threads {
@@ -197,6 +202,7 @@ pub fn run_check(spec: &CheckSpec, base_seed: u64, thorough: bool, threads: usiz
           let mut my_nt = 0u64; let mut my_runs = 0u64;
           let mut my_panics: Vec<(u64, String)> = vec![];
           let mut my_digest = 0u64;
+          let mut my_evals = 0u64;
           loop {
             // blocks of 64 consecutive run indices
             let start = next.fetch_add(64, Ordering::Relaxed);
@@ -207,11 +213,13 @@ pub fn run_check(spec: &CheckSpec, base_seed: u64, thorough: bool, threads: usiz
               let mut ctx = Ctx { thorough, want_sample: idx < 3, acc: &mut acc };
               let r = camp.run(seed, idx, &mut ctx);
               my_runs += 1;
+              my_evals += r.evals;
               my_digest = my_digest.wrapping_add(mix(idx, r.digest));
               if r.nontrivial { my_nt += 1; distinct_nt.insert(r.case_hash); }
               for h in &r.state_hashes { distinct_states.insert(*h); }
               if let Some(s) = r.sample { my_samples.push((idx, s)); }
               if let Some(p) = r.sut_panic { my_panics.push((idx, p)); }
+              if let Some(e) = r.harness_error { let mut g = harness_errors.lock().unwrap(); if g.len() < 5 { g.push(format!("campaign {} run {}: {}", cname, idx, e)); } }
               if let Some(f) = r.failure {
                 if let Some(k) = match_known(&known, spec.property, &f.violation) {
                   *my_known.entry(format!("{} {}", k.label, k.description)).or_insert(0) += 1;
@@ -230,12 +238,14 @@ pub fn run_check(spec: &CheckSpec, base_seed: u64, thorough: bool, threads: usiz
           g.1.extend(my_samples);
           g.2.extend(my_fail);
           for (k, v) in my_known { *g.3.entry(k).or_insert(0) += v; }
-          g.4 += my_nt; g.5 += my_runs;
+          g.4 += my_nt; g.5 += my_runs; g.7 += my_evals;
           g.6.extend(my_panics);
         });
       }
     });
-    let (acc, mut samp, mut fails, kn, nt_runs, runs_done, mut panics) = merged.into_inner().unwrap();
+    let herrs = harness_errors.into_inner().unwrap();
+    if !herrs.is_empty() { for e in &herrs { eprintln!("harness error: {}", e); } return CheckReport { violations: 0, exit: 2 }; }
+    let (acc, mut samp, mut fails, kn, nt_runs, runs_done, mut panics, evals_done) = merged.into_inner().unwrap();
     all_acc.merge(&acc);
     samp.sort_by_key(|x| x.0);
     for (_, s) in samp.into_iter().take(2) { samples.push(json!({"campaign": cname, "case": s})); }
@@ -248,10 +258,10 @@ pub fn run_check(spec: &CheckSpec, base_seed: u64, thorough: bool, threads: usiz
     let ds = distinct_states.count();
     total_nontrivial_distinct += dn;
     total_states += ds;
-    total_evals += runs_done;
+    total_evals += evals_done;
     let wall = c0.elapsed().as_secs_f64();
     camp_reports.push(json!({
-      "campaign": cname, "world": camp.world(), "runs": runs_done, "planned_runs": n,
+      "campaign": cname, "world": camp.world(), "runs": runs_done, "executions": evals_done, "planned_runs": n,
       "nontrivial_runs": nt_runs, "distinct_nontrivial": dn, "distinct_states_or_shapes": ds,
       "wall_s": wall, "runs_per_hour": if wall > 0.0 { (runs_done as f64 / wall * 3600.0) as u64 } else { 0 },
       "run_digest": format!("{:016x}", digest_sum.load(Ordering::Relaxed)),
